@@ -26,6 +26,7 @@ This format is used by two programs:
 from typing import TextIO
 from warnings import warn
 
+import attrs
 import numpy as np
 from numpy.typing import NDArray
 
@@ -344,13 +345,24 @@ def dump_one(f: TextIO, data: IOData):
         f.write("\n")
 
     # BASIS
+    # The shells must be sorted by center. The rows of the orbital coefficients
+    # are reordered accordingly.
+    shells = data.obasis.shells
+    order = sorted(range(len(shells)), key=(lambda i: shells[i].icenter))
+    offsets = np.cumsum([0] + [shell.nbasis for shell in shells])
+    rows = np.concatenate([np.arange(offsets[i], offsets[i + 1]) for i in order])
+    data = attrs.evolve(
+        data,
+        obasis=attrs.evolve(data.obasis, shells=[shells[i] for i in order]),
+        mo=attrs.evolve(data.mo, coeffs=data.mo.coeffs[rows]),
+    )
     f.write("$BASIS\n")
     iatom_last = 0
     for shell in data.obasis.shells:
         if shell.ncon != 1:
             raise RuntimeError("Generalized contractions not supported. Call prepare_dump first.")
-        iatom_new = shell.icenter
-        if iatom_new != iatom_last:
+        # One separator for every next center, also for centers without shells.
+        for _ in range(shell.icenter - iatom_last):
             f.write("$$\n")
         angmom = shell.angmoms[0]
         kind = shell.kinds[0]
